@@ -582,8 +582,10 @@ func (e *fieldEnv) step() bool {
 	}
 }
 
-// runFieldSequence executes one sequence; trace != nil records the operations.
-func runFieldSequence(rng *vlib.Rand, ops map[string]int64, trace *[]string) *fail {
+// runFieldSequence executes one sequence; trace != nil records the operations and stops at the first
+// failure. Without trace a failure is reported, the models are resynchronised with the implementation
+// and the sequence goes on (at most 3 reports per sequence), so that a known defect does not cut coverage.
+func runFieldSequence(rng *vlib.Rand, ops map[string]int64, trace *[]string, onFail func(*fail)) {
 	e := &fieldEnv{rng: rng, ops: ops, trace: trace}
 	for i := range e.regs {
 		if rng.Intn(3) == 0 {
@@ -592,17 +594,26 @@ func runFieldSequence(rng *vlib.Rand, ops map[string]int64, trace *[]string) *fa
 			e.setB32(i)
 		}
 	}
+	nfail := 0
+	failed := func() bool { // returns true when the sequence must stop
+		onFail(e.fail)
+		e.fail = nil
+		nfail++
+		for i := range e.regs {
+			e.regs[i].v = fieldVal(&e.regs[i].f)
+		}
+		return trace != nil || nfail >= 3
+	}
 	n := 6 + rng.Intn(20)
 	for s := 0; s < n; s++ {
-		if !e.step() {
-			return e.fail
+		if !e.step() && failed() {
+			return
 		}
 	}
 	// final sweep: every register still equals its model
 	for i := range e.regs {
-		if !e.check("final-sweep", i, nil) {
-			return e.fail
+		if !e.check("final-sweep", i, nil) && failed() {
+			return
 		}
 	}
-	return nil
 }
